@@ -212,6 +212,7 @@ type c14Result struct {
 	Sequences      int64            `json:"sequences"`
 	PoolReuse      int64            `json:"pool_reuse_sequences"`
 	Counters       map[string]int64 `json:"counters"`
+	SampleInputs   []string         `json:"sample_inputs,omitempty"`
 }
 
 type c14State struct {
@@ -817,6 +818,9 @@ func C14Child(mode, tier string, seed int64) {
 	quick := tier != "thorough"
 	inputs, shared := c14Baseline(st, seed)
 	res.Counters["inputs"] = int64(len(inputs))
+	for i := 0; i < len(inputs); i += len(inputs)/12 + 1 {
+		res.SampleInputs = append(res.SampleInputs, fmt.Sprintf("v%s %q -> %.90s", spec.Versions[inputs[i].ver].Name, inputs[i].s, inputs[i].base))
+	}
 	if mode == "plain" {
 		c14FreshProcess(st, inputs)
 	}
@@ -1132,7 +1136,7 @@ func CheckC14(c *Ctx) {
 		c.Floor("events in "+b.mode+" build", res.Events, 10000)
 		c.Floor("keys observed from >= 2 goroutines in "+b.mode+" build", int64(res.KeysMulti), 20)
 		if len(c.Samples) < 12 {
-			c.Samples = append(c.Samples, map[string]any{"build": b.mode, "events": res.Events, "configurations": res.Configs})
+			c.Samples = append(c.Samples, map[string]any{"build": b.mode, "events": res.Events, "configurations": res.Configs, "some_inputs_with_baseline": res.SampleInputs})
 		}
 	}
 	c.Evals = totalEvents
